@@ -2587,21 +2587,36 @@ func c11r25(c *Ctx, r *Report) {
 		r.unest("anchors", token.NoPos, nil, "anchor interpretCode", "cannot resolve")
 		return
 	}
-	enters := map[string]token.Pos{}
-	ast.Inspect(fd.Body, func(nd ast.Node) bool {
-		cc, ok := nd.(*ast.CaseClause)
-		if !ok {
-			return true
-		}
-		inc := false
+	// the state variable: the one the case of 38 increments (not identified by its name)
+	incOf := func(cc *ast.CaseClause) string {
 		for _, st := range cc.Body {
 			if ids, ok := st.(*ast.IncDecStmt); ok && ids.Tok == token.INC {
-				if id, ok := ids.X.(*ast.Ident); ok && id.Name == "state256" {
-					inc = true
+				if id, ok := ids.X.(*ast.Ident); ok {
+					return id.Name
 				}
 			}
 		}
-		if !inc {
+		return ""
+	}
+	hasLit := func(cc *ast.CaseClause, v string) bool {
+		for _, e := range cc.List {
+			if lit, ok := e.(*ast.BasicLit); ok && lit.Kind == token.INT && lit.Value == v {
+				return true
+			}
+		}
+		return false
+	}
+	stateVar := ""
+	ast.Inspect(fd.Body, func(nd ast.Node) bool {
+		if cc, ok := nd.(*ast.CaseClause); ok && hasLit(cc, "38") && incOf(cc) != "" {
+			stateVar = incOf(cc)
+		}
+		return true
+	})
+	enters := map[string]token.Pos{}
+	ast.Inspect(fd.Body, func(nd ast.Node) bool {
+		cc, ok := nd.(*ast.CaseClause)
+		if !ok || stateVar == "" || incOf(cc) != stateVar {
 			return true
 		}
 		for _, e := range cc.List {
@@ -2655,14 +2670,14 @@ func c11r25(c *Ctx, r *Report) {
 func c19r17(c *Ctx, r *Report) {
 	l := c.L
 	r.rule("C19-R17", "A (the prune tests exempt the root)", "P1",
-		"in the walker callbacks of Reader.readFiles, every return of filepath.SkipDir is control dependent on a bool that says whether the entry is the root (a parameter or captured variable of the callback), and readFiles has a per-root flag that a callback clears",
+		"in the walker callbacks of Reader.readFiles, every return of filepath.SkipDir is reached only on paths that have read, with one and the same outcome, a bool that says whether the entry is the root (a parameter or captured variable of the callback), and readFiles has a per-root flag that a callback clears",
 		"an explicitly given root whose base name is hidden or in the skip list (.git, node_modules, ~/.config) lists nothing")
 	fn := l.Fn("fzf", "(*Reader).readFiles")
 	if fn == nil {
 		r.unest("anchors", token.NoPos, nil, "anchor Reader.readFiles", "cannot resolve")
 		return
 	}
-	cc := cdCache{}
+	_ = cdCache{}
 	isBoolSource := func(v ssa.Value) bool {
 		bt, ok := v.Type().Underlying().(*types.Basic)
 		if !ok || bt.Kind() != types.Bool {
@@ -2692,12 +2707,21 @@ func c19r17(c *Ctx, r *Report) {
 				return
 			}
 			n++
+			// every path to the prune has read the flag with one and the same outcome (control dependence alone
+			// would also accept a prune that merely follows an `if … && !isRoot { return }`)
+			pcg := pathConds(g)
 			exempt := false
-			for cond := range cc.of(ret) {
-				for v := range backwardSlice(cond, nil, nil) {
-					if isBoolSource(v) {
-						exempt = true
+			for _, want := range []bool{false, true} {
+				holds, reach := pcg.Implies(ret.Block(), func(lits []Lit) bool {
+					for _, lt := range lits {
+						if isBoolSource(lt.Atom) && lt.Val == want {
+							return true
+						}
 					}
+					return false
+				})
+				if holds && reach {
+					exempt = true
 				}
 			}
 			r.check(exempt, fmt.Sprintf("%s:prune #%d does not apply to the root", relName(fn), n), ret.Pos(), g,
